@@ -173,7 +173,7 @@ def job(args):
 
 
 def run(tier, seed):
-    n = 96 if tier == "quick" else 800
+    n = 96 if tier == "quick" else 400
     res = Result()
     for r in core.pmap(job, [(seed, i, tier) for i in range(n)]):
         res.merge(r)
